@@ -2233,6 +2233,19 @@ func PutSyncedTo(ns walletdb.ReadWriteBucket, bs *BlockStamp) error {
 		return managerError(ErrDatabase, errStr, err)
 	}
 
+	// Hashes stored for heights above the new tip belong to blocks that
+	// have been disconnected. Forget them, otherwise a later block could
+	// pass the previous block check above against a block that is no
+	// longer part of the chain.
+	for height := bs.Height + 1; ; height++ {
+		if _, err := fetchBlockHash(ns, height); err != nil {
+			break
+		}
+		if err := deleteBlockHash(ns, height); err != nil {
+			return managerError(ErrDatabase, errStr, err)
+		}
+	}
+
 	// Remove the stale height if any, as we should only store MaxReorgDepth
 	// block hashes at any given point.
 	staleHeight := staleHeight(bs.Height)
